@@ -41,7 +41,7 @@ namespace {
 
 struct Options
 {
-  std::vector<std::string> fn_res, rec_res, enum_res;
+  std::vector<std::string> fn_res, rec_res, enum_res, file_res;
   bool calls = false;
   std::string root = "/repo/src";
   std::string out;
@@ -51,7 +51,7 @@ Options G;
 
 struct Matchers
 {
-  std::vector<llvm::Regex> fn, rec, en;
+  std::vector<llvm::Regex> fn, rec, en, files;
   void build()
   {
     for (auto& s : G.fn_res)
@@ -60,6 +60,8 @@ struct Matchers
       rec.emplace_back("^(" + s + ")$");
     for (auto& s : G.enum_res)
       en.emplace_back("^(" + s + ")$");
+    for (auto& s : G.file_res)
+      files.emplace_back("^(" + s + ")$");
   }
   static bool any(std::vector<llvm::Regex>& v, const std::string& s)
   {
@@ -1120,7 +1122,8 @@ public:
     if (!underRoot(FD->getLocation()))
       return true;
     std::string qn = plainQualifiedName(FD);
-    if (Matchers::any(M.fn, qn))
+    if (Matchers::any(M.fn, qn)
+        && (M.files.empty() || Matchers::any(M.files, D->fileOf(FD->getBody() ? FD->getBody()->getBeginLoc() : FD->getLocation()))))
       {
         std::string key = D->templateArgs(FD) + "|" + std::to_string(D->lineOf(FD->getBeginLoc())) + "|" +
                           (FD->isDependentContext() ? "dep" : "") + D->fnRef(FD).getString("sig")->str();
@@ -1217,6 +1220,8 @@ main(int argc, const char** argv)
         G.rec_res.push_back(argv[++i]);
       else if (a == "--enum" && i + 1 < argc)
         G.enum_res.push_back(argv[++i]);
+      else if (a == "--file" && i + 1 < argc)
+        G.file_res.push_back(argv[++i]);
       else if (a == "--calls")
         G.calls = true;
       else if (a == "--root" && i + 1 < argc)
